@@ -8,9 +8,9 @@ import (
 
 func init() {
 	registry.Register(&registry.Check{
-		ID:    "C05",
-		Level: "model_checking",
-		Rule:  "explicit-state DFS over send (2 senders, 2 amount/fee shapes, per token), cancel by owner and by a stranger, increase-fee, request-batch (base fee 0/2, minimum fee 1/1000), batch executed in any order (older batches cancelled), far-future observed height (timeouts), outgoing bridge calls with result ok/fail, blocks; after every step the real pool, batches and outgoing bridge calls are decoded and compared record by record with a reference book (ids next/unique, exactly one place, queued fields as supplied, settled once, only creator cancels)",
+		ID:          "C05",
+		Level:       "model_checking",
+		Rule:        "explicit-state DFS over send (2 senders, 2 amount/fee shapes, per token), cancel by owner and by a stranger, increase-fee, request-batch (base fee 0/2, minimum fee 1/1000), batch executed in any order (older batches cancelled), far-future observed height (timeouts), outgoing bridge calls with result ok/fail, blocks; after every step the real pool, batches and outgoing bridge calls are decoded and compared record by record with a reference book (ids next/unique, exactly one place, queued fields as supplied, settled once, only creator cancels)",
 		Assumptions: []string{"one oracle with full power per chain (quorum is C01/C02); amounts 1-2 units; at most max_send transfers and 2 bridge calls per history"},
 		Jobs: func(tier string) []registry.Job {
 			if tier == "thorough" {
@@ -26,6 +26,9 @@ func init() {
 				{Name: "eth-FX+usdt-calls", Spec: &bridge.Spec{Prop: "C05", Chains: []string{"eth"}, Tokens: []string{"FX", "usdt"}, Book: true, Calls: true, MaxSend: 3}, Depth: 5, ShardDepth: 2},
 				{Name: "eth-usdt-evm", Spec: &bridge.Spec{Prop: "C05", Chains: []string{"eth"}, Tokens: []string{"usdt"}, Book: true, EVM: true, MaxSend: 2}, Depth: 5, ShardDepth: 2},
 				{Name: "batch-life-cycle-deep", Spec: &bridge.Spec{Prop: "C05", Chains: []string{"eth"}, Tokens: []string{"FX", "usdt"}, Book: true, Ledger: true, MaxSend: 3, Focus: "batches"}, Depth: 7, ShardDepth: 2},
+				// the external chain's result for an outgoing bridge call is observed and parked; somebody executes it later,
+				// possibly after events that prove the call's timeout height
+				{Name: "bridge-call-results-executed-late", Spec: &bridge.Spec{Prop: "C05", Chains: []string{"eth"}, Tokens: []string{"FX", "usdt"}, Book: true, Ledger: true, Calls: true, LateExec: true, MaxSend: 1}, Depth: 5, ShardDepth: 2},
 				// 99 transfers wait in the pool; two more sends make it more than one batch (100 entries) can take
 				{Name: "pool-larger-than-a-batch", Spec: &bridge.Spec{Prop: "C05", Chains: []string{"eth"}, Tokens: []string{"FX"}, Book: true, Ledger: true, MaxSend: 101, Prefill: 99, Focus: "batches"}, Depth: 4, ShardDepth: 1},
 			}
